@@ -352,7 +352,8 @@ def run_b8(chk, repo):
     for name, m in sorted(pr.methods.items()):
         if not name.startswith('_print_'):
             continue
-        p0 = m.params[0] if m.params else 'expr'
+        ps = [x for x in m.params if x != 'self']
+        p0 = ps[0] if ps else 'expr'
         bad = []
         for j in [n for n in ast.walk(m.node) if isinstance(n, ast.JoinedStr)]:
             for v in j.values:
